@@ -99,6 +99,10 @@ func (g *c01Gen) intOf(ti int, depth int) string {
 	case 14:
 		// conversion from another integer type
 		tj := g.r.IntN(len(c01IntTypes))
+		if tj == ti {
+			// identity conversions (Int8#to_int8, ...) are declared but have no native (C28 K60, witnessed there)
+			return a
+		}
 		conv := map[string]string{"Int": "to_int", "Int8": "to_int8", "Int16": "to_int16", "Int32": "to_int32", "Int64": "to_int64", "UInt8": "to_uint8", "UInt16": "to_uint16", "UInt32": "to_uint32", "UInt64": "to_uint64"}[t.name]
 		return g.intOf(tj, depth-1) + "." + conv
 	default:
